@@ -245,6 +245,11 @@ func genC01(tier string, emit func(any)) {
 	if tier == "thorough" {
 		seqs = append(seqs, []string{"L2097151"}, []string{"L2097152", "a"})
 	}
+	// one archive that exceeds every internal buffer and batch size (bufio 4 KiB, loader batches of 1000)
+	big := kit.ManyNames(1100)
+	for _, o := range []drv.Opts{{V1: true}, {}, {DataPad: 7, IndexPad: 3, Codec: "sorted", AllowDup: true}} {
+		emit(C01Case{Roots: "a", Seq: append([]string{"a"}, big...), Opts: o})
+	}
 	type cont struct {
 		v1     bool
 		dp, ip uint64
